@@ -492,7 +492,7 @@ pub fn run(ctx: &Ctx) -> Report {
   let mut rep = Report::default();
   let mut orc = Oracle::spawn();
   let mut rng = Rng::new(ctx.seed);
-  rep.rule = "(a) validation: structured ASCII and JSON documents for the 9 (quantity,width) instances - <= 7 cells / ranges over <= 3 depths listed in increasing, decreasing or random order, half of them with one mutation (index = n_cells, n_cells+1, range ending one past the domain, inverted range, depth max+1..max+3 / 64 / 99 / 200 / 255, end or index = type maximum, duplicated / parent / child cell, trailing depth mark beyond the maximum) - accept/reject decision and decoded MOC compared with extracted text_accept/text_decode, accepted MOCs through extracted valid_mocb; (b) totality: character-level mutations of 9 valid text documents through 13 decoders / store loaders in-process (panic + allocation monitor), and FITS documents (range S/T/F u16/u32/u64, NUNIQ, ST v2, multi-order map and sky map samples cut to 4 blocks) with a structural sweep (every size / type keyword of the extension header set to values derived from its current value: v-1, v+1, v/2, v/4, 2v, v-4, 4, 8; every TFORM set to 16 neighbouring forms) and random single-field mutations (26 boundary values on every card, blanked / misspelt keywords, truncation at any offset, randomised or extreme data values) decoded in a child process (exit status, panic, abort, largest allocation request). non-trivial = >= 2 items (a) / any mutated document (b); distinct = distinct case line".to_string();
+  rep.rule = "(a) validation: structured ASCII and JSON documents for the 9 (quantity,width) instances - <= 7 cells / ranges over <= 3 depths listed in increasing, decreasing or random order, half of them with one mutation (index = n_cells, n_cells+1, range ending one past the domain, inverted range, depth max+1..max+3 / 64 / 99 / 200 / 255, end or index = type maximum, duplicated / parent / child cell, trailing depth mark beyond the maximum) - accept/reject decision and decoded MOC compared with extracted text_accept/text_decode, accepted MOCs through extracted valid_mocb; (b) totality: character-level mutations of 9 valid text documents through 13 decoders / store loaders in-process (panic + allocation monitor), and FITS documents (range S/T/F u16/u32/u64, NUNIQ, ST v2, multi-order map and sky map samples cut to 4 blocks) with a structural sweep (every size / type keyword of the extension header set to values derived from its current value: v-1, v+1, v/2, v/4, 2v, v-4, 4, 8, 0, 1; every TFORM set to 16 neighbouring forms) and random single-field mutations (26 boundary values on every card, blanked / misspelt keywords, truncation at any offset, randomised or extreme data values) decoded in a child process (exit status, panic, abort, largest allocation request). non-trivial = >= 2 items (a) / any mutated document (b); distinct = distinct case line".to_string();
   let n_val = ctx.n(6_000, 200_000);
   for _ in 0..n_val {
     validation_case(&mut rep, &mut orc, &mut rng);
@@ -534,7 +534,7 @@ pub fn run(ctx: &Ctx) -> Report {
         if structural.contains(&kt.as_str()) {
           let cur = String::from_utf8_lossy(&base[off + 10..off + 30]).trim().to_string();
           if let Ok(v) = cur.parse::<i64>() {
-            let mut dv = vec![v - 1, v + 1, v / 2, v / 4, v * 2, v - 4, 4, 8];
+            let mut dv = vec![v - 1, v + 1, v / 2, v / 4, v * 2, v - 4, 4, 8, 0, 1];
             dv.sort();
             dv.dedup();
             for x in dv {
